@@ -41,6 +41,25 @@ def generate(rng, tier):
     fn = rng.choice(FUNCS)
     if fn == "louvain" and rng.random() < 0.5:
         n = rng.randrange(6, 13)  # local-move cycles need a little room (the tie cycle of 10.3 was found at n = 10)
+    if fn == "pagerank" and rng.random() < 0.35:
+        # larger, skewed graphs (hubs and spokes): the stopping rule is only stressed when many small changes add up
+        n = rng.randrange(12, 70)
+        hubs = rng.sample(range(n), rng.choice([1, 1, 2, 3]))
+        adj = [[] for _ in range(n)]
+        back = rng.choice([0.0, 0.5, 1.0])
+        for v in range(n):
+            for h in hubs:
+                if v != h and rng.random() < 0.9:
+                    adj[v].append(h)
+                if v != h and rng.random() < back:
+                    adj[h].append(v)
+            if rng.random() < 0.1:
+                adj[v].append(rng.randrange(n))
+        labels = rng.sample(range(0, 5000), n)
+        order = list(range(n))
+        rng.shuffle(order)
+        return {"fn": fn, "n": n, "adj": adj, "labels": labels, "order": order, "fresh": False,
+                "kw": {"damping": rng.choice([0.5, 0.85, 0.99]), "tol": rng.choice([1e-3, 1e-6, 1e-9]), "max_iter": rng.choice([100, 5000])}}
     dens = rng.choice([0.15, 0.3, 0.5, 0.8])
     sym = rng.random() < 0.4
     adj = [[] for _ in range(n)]
@@ -183,6 +202,21 @@ def ref_pagerank(case):
     return [A[i][n] for i in range(n)]
 
 
+def residual_ratio(case, s):
+    """max_i |s_i - F(s)_i| / tol for one synchronous sweep F of the damped equation (uniform dangling redistribution)."""
+    n = case["n"]
+    d = case["kw"].get("damping", 0.85)
+    tol = case["kw"].get("tol", 1e-6)
+    out = [len(a) for a in case["adj"]]
+    new = [(1.0 - d) / n] * n
+    dang = sum(s[u] for u in range(n) if out[u] == 0)
+    for u, a in enumerate(case["adj"]):
+        for v in a:
+            new[v] += d * s[u] / out[u]
+    new = [x + d * dang / n for x in new]
+    return max(abs(a - b) for a, b in zip(new, s)) / tol
+
+
 def modularity(case, parts, resolution):
     es = sym_edges(case)
     m = len(es)
@@ -265,7 +299,12 @@ def execute(case) -> Outcome:
         if n:
             if set(sol) != set(L) or any(s < 0 for s in sol.values()) or abs(sum(sol.values()) - 1.0) > 1e-9:
                 o.violate(PROP, "not_a_distribution", f"scores {sol} (sum {sum(sol.values())!r})", **key)
-            elif res.status.name == "OPTIMAL":
+            elif res.status.name == "OPTIMAL" and residual_ratio(case, [sol[L[i]] for i in range(n)]) > 10.0:
+                # "to within the tolerance": the shipped rule (largest change < tol) leaves a residual of the damped equation of at
+                # most ~2.5 tol on 40 000 random graphs up to 40 nodes; ten times the tolerance is not "within the tolerance"
+                o.violate(PROP, "equation_not_satisfied", f"OPTIMAL but the residual of the damped equation is "
+                          f"{residual_ratio(case, [sol[L[i]] for i in range(n)]):.1f} x tol", **key)
+            elif res.status.name == "OPTIMAL" and n <= 10:
                 exact = ref_pagerank(case)
                 d, tol = case["kw"]["damping"], case["kw"]["tol"]
                 bound = n * tol * d / (1 - d) + 1e-12
